@@ -7,7 +7,7 @@ package file
 // ---------------------------------------------------------------------------
 // C06 / C07 / C19: the injector. An area is the 1-based byte span [Start, End) of one annotated field in the file.
 
-//@ regex [C06 C19 language.rTags] rTags << `[^:]*:.*`
+//@ regex [C06 C19 language.rTags] rTags << `(?s)[^:]*:.*`
 //@ axiom [rTags.colon] forall(x String :: {fullMatch(rTags, x)} fullMatch(rTags, x) ==> contains(x, ":"))
 
 //@ pred area.in(a file.textArea, n) = 1 <= a.Start && a.Start <= a.End && a.End <= n + 1
